@@ -7,8 +7,8 @@ CONSTANTS
   HMatches <- MC_HMatches
   DispatchPolicy = "min_id"
   None = None
-  IntentSet = {"A1", "B1", "AB1", "N1"}
-  EventSet = {"B1"}
+  IntentSet = {"A1", "A2", "B1", "AB1", "N1"}
+  EventSet = {"AB1"}
   SeqNos = {7}
   Mode = "graph"
   MidTx = TRUE
